@@ -60,6 +60,11 @@ def run(ctx: Ctx, rep: Report) -> None:
     # hand-written gradients are the symbolic derivative of the unitary
     from ..rules.gradsym import rule_gradsym
     rule_gradsym(ctx, rep, gates, 4)
+    # optimize(): magnitude-blind angles, partial calc_params
+    from ..rules.optrule import rule_magblind
+    from ..rules.optrule import rule_total
+    rule_magblind(ctx, rep, gates, 6)
+    rule_total(ctx, rep, gates, 3)
     # order-sensitive folds: tensor factors by qudit, inserts by index
     from ..rules.foldorder import rule_insertord
     from ..rules.foldorder import rule_kronfold
